@@ -18,6 +18,7 @@ import ALV.Lemmas.C03PTotalRun
 import ALV.Lemmas.C03Counts
 import ALV.Lemmas.C03Call
 import ALV.Lemmas.C03X
+import ALV.Lemmas.C03XC
 import ALV.Common.Audit
 
 namespace ALV.Props.C03
@@ -706,13 +707,33 @@ theorem raise_tee_once {f : Nat} {h h' : XHeap α} {k : Nat} {parent p' : XIt α
     xnext (f + 1) h (.tee k buf.length) = some (h'.set k ⟨p', buf⟩, .tee k buf.length, .raise e) :=
   tee_raise_not_stored hk hp
 
--- PENDING: the history-level statement with copies.  Because `tee` delivers an exception to one copy
--- only, copies are not independent event lists; the specification needs a shared set of exceptions
--- already delivered (each raising position of a source fires once).  `xrun` (model) is tied to the real
--- code on such histories; the refinement to that specification is not proved.
-def raise_history_with_copies_PENDING : Prop :=
-  ∀ (ops : List (XOp Int)) (f : Nat), (∀ o, o ∈ xrun f (XSt.empty : XSt Int) ops → o ≠ none) →
-    ∃ spec : List (XOp Int) → List (Option (Obs Int)), xrun f (XSt.empty : XSt Int) ops = spec ops
+/-- **C03.11f (histories with exceptions AND copies)** — was `raise_history_with_copies_PENDING`.  For
+every history of new / take / next / list() / skip / limit / append / map / filter / `s.attr` / `copy` /
+`peek`, of any length, over sources and element functions that raise anywhere: whenever the heap model
+terminates at every step, the whole list of observations is the one of the specification
+`Spec/C03XC.lean` — a Stream is a list of events (`evs`; every method is the list function of C03.11c)
+wherever nothing below it is shared; a copy / `peek` turns what the Stream denoted into a shared
+sequence (`SHub`: what it still has to deliver, and the ITEMS delivered so far) read through `view`s; a
+view behind the front reads the stored item, the view at the front takes the head event for everybody:
+an item is stored, an exception goes to that view alone and is gone. -/
+theorem raise_history_with_copies (ops : List (XOp α)) (f : Nat)
+    (hterm : ∀ o, o ∈ xrun f (XSt.empty : XSt α) ops → o ≠ none) :
+    xrun f (XSt.empty : XSt α) ops = srun f (SSt.empty : SSt α) ops :=
+  srun_abs f ops XSt.empty hterm
+
+/-- **C03.11g (one step, any state)** the same for one operation from any state of the heap model:
+`XSt.abs` replaces every iterator without tee leaves — in the pool, under a wrapper, as the source of
+a tee — by the list of events it denotes. -/
+theorem raise_step_with_copies {f : Nat} {st st' : XSt α} {op : XOp α} {o : Obs α}
+    (hx : xstep f st op = some (st', o)) : sstep f st.abs op = some (st'.abs, o) := sstep_abs hx
+
+/-- **C03.11h (the specification with copies extends the one without)** on histories without `copy` /
+`peek` the specification with copies makes the observations of the event-list model of C03.11c (whenever
+the heap model terminates). -/
+theorem raise_copies_conservative (ops : List (XOp α)) (f : Nat) (hops : ∀ op, op ∈ ops → op.teeFree = true)
+    (hterm : ∀ o, o ∈ xrun f (XSt.empty : XSt α) ops → o ≠ none) :
+    srun f (SSt.empty : SSt α) ops = xspecRun [] ops := by
+  rw [← raise_history_with_copies ops f hterm]; exact raise_history ops f hops hterm
 
 /-- non-vacuity: `map` goes on after the exception, `take(5)` raises and the Stream goes on behind the
     raising position; `limit` and `skip` are finished by it; `s.attr` goes on -/
